@@ -471,7 +471,14 @@ var alphabets = [][]rune{
 	[]rune("\u00a0\u00ad\u200b\u2009\t"),
 }
 
-type textSrc struct{ r *rand.Rand }
+type textSrc struct {
+	r     *rand.Rand
+	marks int
+}
+
+// characters SourceSansPro / SourceCodePro have and no alphabet above uses: one per board, so that every board
+// (in particular the deepest ones of a board tree) draws a character no other board has
+var markPool = []rune("ĎďĐđĒēĔĕĖėĘęĚěĜĝĞğĠġĢģĤĥĦħĨĩĪīĬĭĮįĴĵĶķĹĺĻļĽľŅņŇňŌōŎŏŐőŔŕŖŗŘřŚśŜŝŞşŢţŤťŦŧŨũŪūŬŭŮůŰűŲųŴŵŶŷŹźŻż")
 
 func (t *textSrc) word() string {
 	var b strings.Builder
@@ -491,6 +498,12 @@ func (t *textSrc) word() string {
 
 func (t *textSrc) Str(field string) string {
 	switch field {
+	case "mark":
+		t.marks++
+		if t.marks > len(markPool) {
+			return ""
+		}
+		return string(markPool[t.marks-1])
 	case "gradpos":
 		return fmt.Sprintf("%d%%", t.r.Intn(100))
 	case "theme-override":
@@ -584,6 +597,9 @@ func runJobs(c *hl.Ctx, jobs []*job) {
 	}
 }
 
+// a deep board tree: every board draws a character no other board has (scenario -> steps / layers -> scenarios …)
+const deepTree = "a: A\nscenarios: {\n  s1: {\n    b: Ď\n    steps: {\n      t1: {\n        c: ģ\n      }\n    }\n    layers: {\n      l1: {\n        d: Ŕ\n        scenarios: {\n          z: {\n            e: Ŵ\n          }\n        }\n      }\n    }\n  }\n}\nlayers: {\n  l2: {\n    f: ŧ\n    scenarios: {\n      q: {\n        g: Ő\n        steps: {\n          u: {\n            h: ű\n          }\n        }\n      }\n    }\n  }\n}\nsteps: {\n  p1: {\n    i: Ğ\n    layers: {\n      w: {\n        j: ĩ\n      }\n    }\n  }\n}\n"
+
 var corpus = []string{
 	"a -> b: hi\n",
 	"x: \"a\\n\\nb\"\n",
@@ -609,6 +625,9 @@ func run(c *hl.Ctx) error {
 		jobs = append(jobs, &job{script: s, opts: svgr.Opts{Dark: -1, Pad: -1, Appendix: true}})
 		c.Count("corpus")
 	}
+	jobs = append(jobs, &job{script: deepTree, opts: svgr.Opts{Dark: -1, Pad: -1, Animate: 500}})
+	jobs = append(jobs, &job{script: deepTree, opts: svgr.Opts{Dark: -1, Pad: -1, Multi: true}})
+	c.Count("corpus:deep-tree")
 	runJobs(c, jobs)
 	total := c.Pick(200, 4000)
 	if c.Search && c.Tier != "thorough" {
@@ -618,13 +637,19 @@ func run(c *hl.Ctx) error {
 	for done := 0; done < total; {
 		jobs = jobs[:0]
 		for k := 0; k < 256 && done < total; k, done = k+1, done+1 {
-			g := &svgr.G{R: r, S: &textSrc{r}, F: feats, Rich: r.Intn(3) == 0}
+			g := &svgr.G{R: r, S: &textSrc{r: r}, F: feats, Rich: r.Intn(3) == 0}
 			boards := 0
-			if r.Intn(5) == 0 {
+			if r.Intn(3) == 0 {
 				boards = 1 + r.Intn(3)
 			}
 			script := g.Script(boards)
 			o := svgr.RandOpts(r, boards)
+			if boards > 0 {
+				c.Count("boards")
+				if o.Animate > 0 {
+					c.Count("boards:animated")
+				}
+			}
 			jobs = append(jobs, &job{script: script, opts: o})
 		}
 		runJobs(c, jobs)
